@@ -219,7 +219,98 @@ def _is_none_side(v, pol, lookups=("self.subst_func",)):
     return False
 
 
+def _judge_make_subst_func(model, fn, module):
+    """interpretive judge: make_subst_func(table) is interpreted, then the
+    function it returns, on every combination of (node kind, table entries):
+    the entry for the node itself wins, else -- for a Variable only -- the
+    entry for its name, else None.  -> witnesses"""
+    from ..absint import Closure, Interp, Opaque, Raised
+
+    class Tok:
+        def __init__(self, kind, name):
+            self.kind, self.name = kind, name
+
+        def __repr__(self):
+            return f"<{self.kind} {self.name}>"
+    wit = []
+    named_kinds = {n_.name for n_ in model.nodes.all()
+                   if "name" in n_.field_names}
+    if "Variable" not in named_kinds:
+        raise AnalysisError("Variable has no field 'name'")
+    glob = {"primitives": Opaque("module primitives")}
+    for st in module.tree.body:
+        if isinstance(st, ast.FunctionDef):
+            glob[st.name] = Closure(st, glob)
+        if isinstance(st, ast.Assign) and len(st.targets) == 1 and isinstance(
+                st.targets[0], ast.Name) and isinstance(st.value, ast.Call) and \
+                ast.unparse(st.value) == "object()":
+            glob[st.targets[0].id] = object()
+    for kind in ("Variable", "Subscript", "Lookup"):
+        for by_node in (False, True):
+            for by_name in (False, True):
+                node = Tok(kind, "x")
+                table = {}
+                if by_node:
+                    table[node] = "R-node"
+                if by_name:
+                    table["x"] = "R-name"
+                table[Tok("Variable", "other")] = "R-other"
+
+                def attrs(it, n_, base, attr):
+                    if isinstance(base, Tok) and attr == "name":
+                        # (a Lookup node has a `name` field too: its attribute)
+                        if base.kind in named_kinds:
+                            return base.name
+                        raise Raised(n_)
+                    return Opaque(ast.unparse(n_))
+
+                def isinst(it, n_, a, k):
+                    what = getattr(a[1], "what", "")
+                    if what.endswith("Variable"):
+                        return isinstance(a[0], Tok) and a[0].kind == "Variable"
+                    raise AnalysisError(f"isinstance(..., {a[1]!r})")
+                it = Interp(calls={"isinstance": isinst}, attrs=attrs,
+                            globals_=glob, max_steps=5000)
+                want = "R-node" if by_node else (
+                    "R-name" if by_name and kind == "Variable" else None)
+                label = (f"{kind} node, table has "
+                         f"{'the node' if by_node else ''}"
+                         f"{' and ' if by_node and by_name else ''}"
+                         f"{'its name' if by_name else ''}"
+                         f"{'neither' if not (by_node or by_name) else ''}")
+                try:
+                    f = it.call_function(fn, [table], dict(glob))
+                    if not isinstance(f, Closure):
+                        wit.append(f"{label}: make_subst_func returns {f!r}")
+                        continue
+                    got = it.call_function(f.fn, [node], f.env)
+                except Raised as r:
+                    wit.append(f"{label}: raises at line {r.node.lineno}")
+                    continue
+                if got != want:
+                    wit.append(f"{label}: gives {got!r}, expected {want!r}")
+    return wit
+
+
 def _check_make_subst_func(ctx, model):
+    m, fn = model.func(f"{SUB}:make_subst_func")
+    wit = _judge_make_subst_func(model, fn, m)
+    ctx.ob("P0/make_subst_func/lookup-semantics", not wit, m.loc(fn),
+           "interpreted on 12 (node kind, table) combinations: the node's own "
+           "entry, else a Variable's name entry, else None" if not wit else
+           "make_subst_func's lookup: " + "; ".join(wit[:3]))
+    mark = len(ctx.obs)
+    try:
+        _check_make_subst_func_structural(ctx, model)
+    except AnalysisError:
+        if wit:
+            raise
+    if not wit:
+        ctx.withdraw_failures_since(
+            mark, "decided by interpreting the lookup on every table shape")
+
+
+def _check_make_subst_func_structural(ctx, model):
     m, fn = model.func(f"{SUB}:make_subst_func")
     inner = [s for s in fn.body if isinstance(s, ast.FunctionDef)]
     loc = m.loc(fn)
